@@ -52,6 +52,17 @@ def as_set(t):
     return t
 
 
+def infeasible_dict_test(st):
+    """A truth test of a dictionary decided against its contents on this path: a dictionary that received entries is not empty, one that received none (and was created
+    empty) is. The walk forks on the truth of an opaque term; such a path is not a path of the program."""
+    for key, val in st.facts.items():
+        if isinstance(key, tuple) and len(key) == 2 and key[0] == 'truth' and is_t(key[1]) and key[1][1] in ('dictobj', 'dict'):
+            n_sets = sum(1 for e in st.trace if e[0] == 'setitem' and e[1] == key[1])
+            if (val is True and n_sets == 0) or (val is False and n_sets > 0):
+                return True
+    return False
+
+
 def parse_selection(t, selfterm, subset_p):
     """term -> (base term, [filters], problems)"""
     filters, probs = [], []
@@ -141,6 +152,8 @@ def d1_call(ctx):
                 if kind != 'return':
                     probs.setdefault('__call__ raises %s' % val, 1)
                     continue
+                if infeasible_dict_test(st):
+                    continue
                 npaths += 1
                 stores = [e for e in st.trace if e[0] == 'setitem']
                 if not stores and any(is_t(x) and (x[1] == 'dictobj' or (x[1] == 'call' and x[2] in ('dict', 'collections.OrderedDict', 'OrderedDict'))) for x in subterms(val)):
@@ -227,7 +240,7 @@ def d1_call(ctx):
     outs = I.run(fi, env={selfp: me, ids_p: T('tuple')})
     empt = [val for kind, val, st in outs if kind == 'return']
     ok_empty = bool(empt) and all(is_t(strip(v)) and strip(v)[2] in ('np.array', 'np.zeros', 'np.empty') and not any(e[0] == 'setitem' for e in st.trace)
-                                  for (kind, v, st) in outs if kind == 'return')
+                                  for (kind, v, st) in outs if kind == 'return' and not infeasible_dict_test(st))
     und_msgs = [m_ for m_ in probs if m_.startswith('UNDECIDED ')]
     real = [m_ for m_ in probs if not m_.startswith('UNDECIDED ')]
     if real:
@@ -508,7 +521,12 @@ def _stored(ctx, fi):
 
 
 def s2_times_in_chunks(ctx):
-    fi = ctx.repo.func(A, '_times_in_chunks')
+    try:
+        fi = ctx.repo.func(A, '_times_in_chunks')
+    except AnchorMissing:
+        # the helper was merged into its caller: the membership test is then part of the selection term, which D1 judges; nothing is concluded here
+        ctx.undecided('C17.S2', A + ':SpikeSelector.__call__', 'the chunk-membership helper _times_in_chunks no longer exists (merged into its caller): its parity rule is not judged separately')
+        return
     tp, kp = fi.params[0], fi.params[1]
     rets = [r for r in fi.returns() if r.value is not None]
     if not rets:
